@@ -775,16 +775,31 @@ def one_rx(chk, program, rule='ONE-RX'):
         st = g.nodes[nid].ast
         stored = isinstance(st, ast.Assign) and any(is_self_attr(x, ('_receive_task',)) for x in st.targets)
         chk.check(stored, rule, f"{q}::stored", file=IO, line=node.lineno, func=q, expected='task stored in self._receive_task', found=stmt_key(st))
-        # dominated by cancellation of the previous task: a test on self._receive_task precedes; on its true edge every path passes .cancel()
-        tests = [n for n in g.nodes if n.kind == 'test' and _mentions_only(n.ast.test, {'_receive_task'}) and g.dominates(n.id, nid)]
-        okc = False
-        for tnode in tests:
-            tt = [v for v, l in g.succ[tnode.id] if l == 'true']
-            cancels = [x for x, cc in nodes_calling(g, lambda c: call_name(c) == 'self._receive_task.cancel')]
-            if tt and cancels and nid not in g.reach(tt[0], avoid=cancels + [tnode.id], include_src=True):
-                okc = True
-            if tt and tt[0] in cancels:
-                okc = True
+        # on every path to the start site the previous task is absent, finished or has been cancelled: a forward must-analysis.
+        # X = self._receive_task or a local bound to it; the world "X is a task that is still running" makes `X` true, `X is None` false, `X.done()` false;
+        # a test outcome impossible in that world proves the task absent or finished; `X.cancel()` establishes the fact; a store to the attribute loses it
+        from .cfg import must_fact, implied_edges
+        aliases = set()
+        for n in g.nodes:
+            if n.kind == 'stmt' and isinstance(n.ast, ast.Assign) and len(n.ast.targets) == 1 and isinstance(n.ast.targets[0], ast.Name) and is_self_attr(n.ast.value, ('_receive_task',)):
+                aliases.add(n.ast.targets[0].id)
+        def is_x(e):
+            return is_self_attr(e, ('_receive_task',)) or (isinstance(e, ast.Name) and e.id in aliases)
+        def world(e):
+            if is_x(e):
+                return True
+            if isinstance(e, ast.Compare) and len(e.ops) == 1 and is_x(e.left) and isinstance(e.comparators[0], ast.Constant) and e.comparators[0].value is None:
+                if isinstance(e.ops[0], (ast.Is, ast.Eq)): return False
+                if isinstance(e.ops[0], (ast.IsNot, ast.NotEq)): return True
+            if isinstance(e, ast.Call) and isinstance(e.func, ast.Attribute) and e.func.attr in ('done', 'cancelled') and is_x(e.func.value) and not e.args:
+                return False
+            return NotImplemented
+        cancels = [x for x, cc in nodes_calling(g, lambda c: isinstance(c.func, ast.Attribute) and c.func.attr == 'cancel' and is_x(c.func.value))]
+        kills = [n.id for n in g.nodes if n.kind == 'stmt' and n.id != nid and isinstance(n.ast, (ast.Assign, ast.AugAssign)) and
+                 any(is_self_attr(t, ('_receive_task',)) for t in (n.ast.targets if isinstance(n.ast, ast.Assign) else [n.ast.target]))
+                 and not (isinstance(n.ast, ast.Assign) and isinstance(n.ast.value, ast.Constant) and n.ast.value.value is None)]
+        fact = must_fact(g, gen_nodes=cancels, gen_edges=implied_edges(g, world), kill_nodes=kills)
+        okc = fact[nid]
         chk.check(okc, rule, f"{q}::cancels-previous", file=IO, line=node.lineno, func=q,
                   expected='a still-running previous receive task is cancelled before the new one starts', found='ok' if okc else 'no dominating cancel')
 
